@@ -180,14 +180,14 @@ ChooseReject ==
     /\ UNCHANGED m
 
 \* ---- the backend handler's script
-HandlerComps == {""} \cup (IF scn.cl.comp = "" \/ Mode \notin {"matrix", "faults"} THEN {} ELSE {scn.cl.comp})
+HandlerComps == {""} \cup (IF scn.cl.comp = "" \/ Mode \notin {"matrix", "faults", "chunks"} THEN {} ELSE {scn.cl.comp})
 MsgClasses == {"empty", "ascii", "pct", "nonascii", "ctl"}
 
 ChooseHandler ==
     /\ ph = "handler"
     /\ LET st == MethodInfo(scn.cl.method).stream
            base == Len(scn.cl.frames)
-           codes == IF Mode \in {"errors", "headers"} THEN EndCodes ELSE {0} IN
+           codes == IF Mode \in {"errors", "headers", "chunks"} THEN EndCodes ELSE {0} IN
        \E code \in codes, hc \in HandlerComps :
          LET counts == IF st \in {"unary", "client"} THEN (IF code = 0 THEN {1} ELSE {0})
                        ELSE (IF Mode = "matrix" THEN 0..MaxMsgs ELSE {0, 1})
@@ -199,7 +199,8 @@ ChooseHandler ==
                                    !.hd.comp = hc, !.hd.errat = n,
                                    !.hd.end = [DefaultEnd EXCEPT !.code = code, !.how = how, !.msg = mc, !.details = nd]]
     /\ ph' = CASE Mode = "faults" -> "handlerfault" [] Mode = "headers" -> "resphdrs"
-               [] Mode = "errors" -> "barehttp" [] Mode = "hostile" -> "hostile" [] OTHER -> "run"
+               [] Mode = "errors" -> "barehttp" [] Mode = "hostile" -> "hostile"
+               [] Mode = "chunks" -> "chunks" [] OTHER -> "run"
     /\ UNCHANGED m
 
 \* errors mode: alternatively the backend fails with a bare HTTP status
@@ -262,6 +263,22 @@ ChooseHostile ==
     /\ ph' = "run"
     /\ UNCHANGED m
 
+\* chunks mode: how the bytes are split across the client's body reads, the handler's
+\* Read buffers and the handler's Write / Flush calls (0 = an empty Write)
+BodyChunks  == {<<1>>, <<2>>, <<3>>, <<4>>, <<6>>, <<5, 1>>, <<1, 4>>, <<7, 3>>}
+ReadBuffers == {<<1>>, <<2>>, <<3>>, <<4>>, <<5>>, <<6>>, <<1, 5>>, <<4, 2>>, <<7>>}
+WriteSizes  == {<<1>>, <<2>>, <<5>>, <<4, 1>>, <<0, 3>>, <<6>>, <<3, 0, 2>>}
+
+ChooseChunks ==
+    /\ ph = "chunks"
+    /\ \/ \E c \in BodyChunks : scn' = [scn EXCEPT !.cl.chunks = c]
+       \/ \E r \in ReadBuffers : scn' = [scn EXCEPT !.hd.reads = r]
+       \/ \E w \in WriteSizes, fl \in BOOLEAN : scn' = [scn EXCEPT !.hd.writes = w, !.hd.flush = fl]
+       \/ \E c \in {<<1>>, <<3>>}, r \in {<<1>>, <<4>>}, w \in {<<1>>, <<0, 3>>} :
+            scn' = [scn EXCEPT !.cl.chunks = c, !.hd.reads = r, !.hd.writes = w, !.hd.flush = TRUE]
+    /\ ph' = "run"
+    /\ UNCHANGED m
+
 (***************************************************************************)
 (* Transcoder: ServeHTTP for this scenario (model in module Transcoder).   *)
 (***************************************************************************)
@@ -276,7 +293,7 @@ Done ==
     /\ UNCHANGED vars
 
 Next == \/ ChooseCfg \/ ChooseClient \/ ChooseReqFrames \/ ChooseClientFault \/ ChooseReqHeaders \/ ChooseReject
-        \/ ChooseHandler \/ ChooseBareHttp \/ ChooseHandlerFault \/ ChooseRespHeaders \/ ChooseHostile
+        \/ ChooseHandler \/ ChooseBareHttp \/ ChooseHandlerFault \/ ChooseRespHeaders \/ ChooseHostile \/ ChooseChunks
         \/ Transcode \/ Done
 
 Spec == Init /\ [][Next]_vars
@@ -295,5 +312,5 @@ OracleHolds == ph = "done" =>
 
 \* the scenario classes a configuration is meant to reach (vacuity guards, checked with -coverage)
 TypeOK == ph \in {"cfg", "client", "reqframes", "clientfault", "reqhdrs", "reject", "handler", "barehttp",
-                  "handlerfault", "resphdrs", "hostile", "run", "done"}
+                  "handlerfault", "resphdrs", "hostile", "chunks", "run", "done"}
 =============================================================================
